@@ -11,7 +11,7 @@ HOSTS = ["Tremblay", "Jupiter", "Fafard", "Ginette", "Bourassa"]
 CODES = {1: "undeclared-type", 2: "undeclared-value", 3: "unknown-container", 4: "use-after-destroy",
          5: "timestamps-decrease", 6: "pop-on-empty-stack", 7: "alias-reused"}
 OPTS = ["tracing/categorized:yes", "tracing/uncategorized:yes", "tracing/actor:yes", "tracing/platform:yes",
-        "tracing/platform/topology:no", "tracing/basic:yes", "tracing/display-sizes:yes", "tracing/disable-destroy:yes",
+        "tracing/platform/topology:no", "tracing/basic:yes", "tracing/smpi/display-sizes:yes", "tracing/disable-destroy:yes",
         "tracing/precision:9"]
 
 
@@ -161,7 +161,7 @@ def run(ctx):
             ctx.fail(sig, "%s: event %d '%s' (previous '%s') of the trace of: %s" % (sig, idx, evl[idx], prev, line[:400]), c)
     ctx.cov["rule"] = ("1..5 actors on small_platform.xml, 1..7 ops each (exec with/without category, sleep, direct comm, mailbox put/get, "
                        "user variable set/add, mark, user host state push/pop), 40% created later, 30% killed at a random date; tracing options: "
-                       "each of categorized/uncategorized/actor/platform with p=0.6, topology:no/basic/display-sizes/disable-destroy/precision:9 "
+                       "each of categorized/uncategorized/actor/platform with p=0.6, topology:no/basic/smpi/display-sizes/disable-destroy/precision:9 "
                        "with p=0.15. non-trivial = more than 60 events and one of categorized/uncategorized/actor")
     ctx.cov["input_distribution"] = dist
     ctx.assumptions += ["aliases in SimGrid's traces are integers; timestamps are scaled by 1e9 to integers (exact for precision <= 9)",
